@@ -29,7 +29,7 @@ ASSUMPTIONS = [
 CELLS = [("logistic", 2, 1, "gaussian-diagonal"), ("logistic", 1, 0, "gaussian-scalar"), ("linear", 2, 1, "gaussian-diagonal"), ("joint", 3, 1, None),
          ("logistic", 3, 2, "gaussian-scalar"), ("shared_speed_logistic", 3, 1, None), ("logistic", 2, 1, "bernoulli"), ("mixture_logistic", 3, 2, None)]
 WHATS = ["fit", "fit", "scipy_minimize", "mean_posterior", "mode_posterior", "scipy_minimize", "simulate", "fit"]
-PRELUDES = [[], ["consume_rng"], ["reseed_other"], ["unrelated_fit"], ["consume_rng", "unrelated_fit"], ["unrelated_fit", "reseed_other"], ["reseed_other", "consume_rng"]]
+PRELUDES = [[], ["consume_rng"], ["reseed_other"], ["unrelated_fit"], ["consume_rng", "unrelated_fit"], ["unrelated_fit", "reseed_other"], ["reseed_other", "consume_rng"], ["customised_calls"], ["customised_calls", "consume_rng"]]
 
 
 def logging_grid():
